@@ -134,6 +134,7 @@ void build_alphabet(int tier) {
     { Stmt s = mk(O_ASSUME); s.c = cst({{1, VX}, {-1, VY}}, 0, C_DISEQ); add(s, "assume(x!=y)"); }
     { Stmt s = mk(O_ASSIGN); s.v0 = VX; s.e = lin({{-1, VX}}); add(s, "x:=-x"); }
     { Stmt s = mk(S_UNREACH); add(s, "unreachable"); }
+    { Stmt s = mk(O_ASSIGN); s.v0 = VY; s.e = lin({}, 0); add(s, "y:=0"); }
   }
   if (WITH_BOOL) {
     { Stmt s = mk(O_BOOL_ASSIGN_CST); s.v0 = VB1; s.c = cst({{1, VX}}, 0, C_LEQ); add(s, "b1:=(x<=0)"); }
@@ -230,6 +231,29 @@ bool has_cycle(const GProg &p) {
         if (r[i][k] && r[k][j]) r[i][j] = true;
   for (int i = 0; i < n; i++)
     if (r[i][i]) return true;
+  return false;
+}
+
+
+// true iff some assertion sits in a block from which the exit block is unreachable (known finding
+// F-BWD-EXIT: such blocks are invisible to the backward analysis, which walks the reversed CFG from the exit)
+bool assert_block_cannot_reach_exit(const GProg &p) {
+  int n = (int)p.blocks.size();
+  if (p.exit < 0) return true;
+  std::vector<bool> reach(n, false);
+  reach[p.exit] = true;
+  bool ch = true;
+  while (ch) {
+    ch = false;
+    for (int u = 0; u < n; u++)
+      if (!reach[u])
+        for (int v : p.blocks[u].succ)
+          if (reach[v]) { reach[u] = true; ch = true; break; }
+  }
+  for (int u = 0; u < n; u++)
+    if (!reach[u])
+      for (auto &s : p.blocks[u].stmts)
+        if (s.kind == S_ASSERT || s.kind == S_BOOL_ASSERT) return true;
   return false;
 }
 
@@ -385,7 +409,8 @@ void run_program(const ProgId &id, const std::string &only_dom) {
                         if (k == crab::checker::check_kind::CRAB_SAFE) {
                           n_safe++;
                           if (R.violated.count(aid))
-                            report(dc.e->name, std::string("fwdbwd-checker:safe-but-violated") + (eb ? ":backward" : ":forward-only"), cspec,
+                            report(dc.e->name, std::string("fwdbwd-checker:safe-but-violated") + (eb ? ":backward" : ":forward-only") +
+                                       (eb && assert_block_cannot_reach_exit(gp) ? ":assert-in-block-not-reaching-exit" : ""), cspec,
                                    ctx + fbs + " => assertion #" + std::to_string(aid) + " reported SAFE but some execution violates it");
                         } else if (k == crab::checker::check_kind::CRAB_UNREACH) {
                           n_unreach++;
@@ -411,13 +436,193 @@ void run_program(const ProgId &id, const std::string &only_dom) {
   }
 }
 
+
+// ---- C11: necessary preconditions --------------------------------------------------
+// explicit concrete graph over (block, valuation-at-entry) nodes
+struct CNode {
+  std::vector<int> succ;      // node ids
+  bool violates = false;      // some run of this block from this valuation fails an assertion
+  std::vector<Val> exit_vals; // valuations at the end of the exit block (only for the exit block)
+  bool can_violate = false, can_exit_good[3] = {false, false, false};
+};
+struct CGraph {
+  std::map<std::pair<int, Val>, int> id;
+  std::vector<std::pair<int, Val>> key;
+  std::vector<CNode> nodes;
+};
+int cg_node(CGraph &g, int b, const Val &v) {
+  auto k = std::make_pair(b, v);
+  auto it = g.id.find(k);
+  if (it != g.id.end()) return it->second;
+  int n = (int)g.nodes.size();
+  g.id[k] = n;
+  g.key.push_back(k);
+  g.nodes.push_back(CNode());
+  return n;
+}
+void cg_build(CGraph &g, const PProg &p, const std::vector<std::pair<int, Val>> &roots, int horizon, const std::vector<long> &box) {
+  std::vector<std::pair<int, int>> frontier; // (node, depth)
+  std::set<int> expanded;
+  for (auto &r : roots) frontier.push_back({cg_node(g, r.first, r.second), 0});
+  StepOut so;
+  while (!frontier.empty()) {
+    std::vector<std::pair<int, int>> next;
+    for (auto &fd : frontier) {
+      int nid = fd.first, d = fd.second;
+      if (!expanded.insert(nid).second) continue;
+      int b = g.key[nid].first;
+      std::vector<Val> cur = {g.key[nid].second};
+      bool viol = false;
+      for (auto &s : p.blocks[b].stmts) {
+        std::vector<Val> nxt;
+        for (auto &v : cur) {
+          exec_stmt(s, v, so, box);
+          if (so.assert_id >= 0 && !so.assert_ok) viol = true;
+          nxt.insert(nxt.end(), so.next.begin(), so.next.end());
+        }
+        std::sort(nxt.begin(), nxt.end());
+        nxt.erase(std::unique(nxt.begin(), nxt.end()), nxt.end());
+        cur.swap(nxt);
+        if (cur.empty()) break;
+      }
+      g.nodes[nid].violates = viol;
+      if (b == p.exit) g.nodes[nid].exit_vals = cur;
+      if (d + 1 > horizon) continue;
+      for (auto &v : cur)
+        for (int sb : p.blocks[b].succ) {
+          int m = cg_node(g, sb, v);
+          g.nodes[nid].succ.push_back(m);
+          next.push_back({m, d + 1});
+        }
+    }
+    frontier.swap(next);
+  }
+}
+
+void run_c11(const ProgId &id, const std::string &only_dom) {
+  GProg gp = make_prog(id);
+  if (gp.exit < 0) return;
+  std::string spec = id.spec();
+  vp::set_case(spec);
+  std::unique_ptr<z_cfg_t> cfg = build_cfg(gp);
+  PProg pp = decompile(*cfg);
+  if (!pp.ok) return;
+  z_cfg_ref_t ref(*cfg);
+  bool has_assert = false;
+  for (auto &b : gp.blocks)
+    for (auto &s : b.stmts)
+      if (s.kind == S_ASSERT || s.kind == S_BOOL_ASSERT) has_assert = true;
+  n_programs++;
+  ExploreCfg ec;
+  ec.vars = {VX, VY};
+  std::vector<Val> box_vals;
+  initial_states(ec, box_vals);
+  // final good states at the exit: top, x<=0, x>=1
+  std::vector<std::vector<LinCst>> finals = {{}, {cst({{1, VX}}, 0, C_LEQ)}, {cst({{-1, VX}}, 1, C_LEQ)}};
+  for (int with_inv = 0; with_inv < 2; with_inv++) {
+    // roots: without invariants every box state at every block; with (sound) forward invariants
+    // computed from top at the entry, only executions from the entry are "consistent" for sure
+    CGraph G;
+    std::vector<std::pair<int, Val>> roots;
+    if (with_inv)
+      for (auto &v : box_vals) roots.push_back({pp.entry, v});
+    else
+      for (size_t b = 0; b < pp.blocks.size(); b++)
+        for (auto &v : box_vals) roots.push_back({(int)b, v});
+    cg_build(G, pp, roots, th ? 10 : 8, ec.box);
+    n_states += (long long)G.nodes.size();
+    // co-reachability (backward propagation to a fixpoint over the explicit graph)
+    for (auto &n : G.nodes) {
+      n.can_violate = n.violates;
+      for (int f = 0; f < 3; f++)
+        for (auto &v : n.exit_vals) {
+          bool ok = true;
+          for (auto &c : finals[f]) ok = ok && c.holds(v.v.data());
+          if (ok) n.can_exit_good[f] = true;
+        }
+    }
+    bool ch = true;
+    while (ch) {
+      ch = false;
+      for (auto &n : G.nodes)
+        for (int m : n.succ) {
+          if (G.nodes[m].can_violate && !n.can_violate) { n.can_violate = true; ch = true; }
+          for (int f = 0; f < 3; f++)
+            if (G.nodes[m].can_exit_good[f] && !n.can_exit_good[f]) { n.can_exit_good[f] = true; ch = true; }
+        }
+    }
+    for (auto &dc : DOMS) {
+      if (!only_dom.empty() && dc.e->name != only_dom) continue;
+      if (!(dc.e->caps & CAP_BACKWARD)) continue;
+      apply_config(dc.cfg);
+      crab::fixpoint_parameters params;
+      std::string cspec = spec + "|" + dc.e->name + "|" + dc.cfg.name;
+      try {
+        wrapped_t top = top_of(*dc.e);
+        std::unordered_map<std::string, wrapped_t> fwd_inv;
+        if (with_inv) {
+          fwd_t F(ref, top, nullptr, params);
+          F.run(top);
+          for (auto &b : pp.blocks) fwd_inv.insert({b.label, F.get_pre(b.label)});
+        }
+        // mode 0: error states (needs assertions); modes 1..3: good final states finals[mode-1]
+        for (int mode = 0; mode < 4; mode++) {
+          if (mode == 0 && !has_assert) continue;
+          if (!th && mode == 3) continue;
+          g_ticks = 0;
+          bwd_t B(ref, top, mode != 0, params);
+          wrapped_t post = top;
+          if (mode == 0)
+            post.set_to_bottom();
+          else if (!finals[mode - 1].empty()) {
+            lsys_t sys;
+            for (auto &c : finals[mode - 1]) sys += to_lcst(c);
+            post += sys;
+          }
+          if (with_inv) B.run_backward(post, fwd_inv); else B.run_backward(post);
+          n_analyses++;
+          std::string ctx = "[" + dc.e->name + " " + dc.cfg.name + (mode == 0 ? " error-mode" : " good-mode final#" + std::to_string(mode - 1)) +
+                            (with_inv ? " with-forward-invariants" : " no-invariants") + "] " + gp.str();
+          for (size_t b = 0; b < pp.blocks.size(); b++) {
+            Obs o;
+            bool have = false;
+            for (size_t nid = 0; nid < G.nodes.size(); nid++) {
+              if (G.key[nid].first != (int)b) continue;
+              bool must = mode == 0 ? G.nodes[nid].can_violate : G.nodes[nid].can_exit_good[mode - 1];
+              if (!must) continue;
+              if (with_inv) {
+                // only states at b that are reachable from the entry (hence inside the sound invariants)
+              }
+              if (!have) { o = observe(B[pp.blocks[b].label]); have = true; if (!o.bottom) n_nonbottom_blocks++; }
+              n_member++;
+              std::string extra, cl = member_clause(o, G.key[nid].second, extra);
+              if (!cl.empty()) {
+                report(dc.e->name, std::string(mode == 0 ? "bwd-error:" : "bwd-good:") + cl + (with_inv ? ":with-invariants" : "") +
+                           (mode == 0 && assert_block_cannot_reach_exit(gp) ? ":assert-in-block-not-reaching-exit" : ""), cspec,
+                       ctx + " => precondition at " + pp.blocks[b].label + " = " + o.print + " excludes " + vstr(G.key[nid].second) +
+                           (mode == 0 ? " from which an execution goes on to violate an assertion " : " from which an execution reaches the exit in a good final state ") + extra);
+                break;
+              }
+            }
+          }
+        }
+      } catch (budget_exceeded &) {
+        report(dc.e->name, "C05:tick-budget-exceeded", cspec, gp.str());
+      } catch (std::runtime_error &e) {
+        report(dc.e->name, "abort", cspec, gp.str() + " => backward analysis aborts: " + e.what());
+      }
+    }
+  }
+}
+
 void enumerate(int n, int nalpha, uint64_t &caseno, const std::string &only_dom, bool second_stmt) {
   uint64_t nst = 1;
   for (int i = 0; i < n; i++) nst *= nalpha;
   for (uint64_t edges = 0; edges < (1ULL << (n * n)); edges++) {
     for (uint64_t sc = 0; sc < nst; sc++) {
       if (!vp::mine(caseno++)) continue;
-      if ((caseno & 0x3ff) == 0 && vp::past_deadline()) {
+      static uint64_t mine_count = 0;
+      if ((++mine_count & 0x3f) == 0 && vp::past_deadline()) {
         vp::incomplete("n=" + std::to_string(n) + " cut at edges=" + std::to_string(edges));
         return;
       }
@@ -428,6 +633,17 @@ void enumerate(int n, int nalpha, uint64_t &caseno, const std::string &only_dom,
       for (int i = 0; i < n; i++) {
         id.st.push_back((int)(t % nalpha));
         t /= nalpha;
+      }
+      if (PROP == "C11") {
+        run_c11(id, only_dom);
+        if (second_stmt && id.st[n > 1 ? 1 : 0] != 0)
+          for (int s2 = 1; s2 < nalpha; s2++) {
+            ProgId id2 = id;
+            id2.st2.assign(n, 0);
+            id2.st2[n > 1 ? 1 : 0] = s2;
+            run_c11(id2, only_dom);
+          }
+        continue;
       }
       run_program(id, only_dom);
       if (second_stmt) {
@@ -456,7 +672,7 @@ int main(int argc, char **argv) {
   std::string family = vp::args().opt.count("family") ? vp::args().opt["family"] : "num";
   std::string only = vp::args().opt.count("domains") ? vp::args().opt["domains"] : "";
   WITH_BOOL = family == "bool";
-  WITH_ASSERT = PROP == "C02";
+  WITH_ASSERT = PROP == "C02" || PROP == "C11";
   if (WITH_BOOL) TRACK = {VX, VY, VB1};
   // domains in scope for program-level checks
   std::vector<std::string> names;
@@ -467,6 +683,7 @@ int main(int argc, char **argv) {
              "term_sdbm", "term_dis", "uf", "num_product", "value_partitioning", "lookahead_soct", "packing_sdbm", "bool_int", "as_int", "aa_int", "rgn_int"};
   else
     names = {"intervals", "ric", "split_dbm", "split_oct", "dis_intervals", "term_int", "sign_constants", "constants"};
+  if (PROP == "C11") names = {"intervals", "sparse_dbm", "split_dbm", "split_oct", "bool_int", "aa_int"};
   for (auto &n : names) {
     if (!only.empty() && ("," + only + ",").find("," + n + ",") == std::string::npos) continue;
     const DomEntry *e = find_domain(n);
@@ -493,7 +710,7 @@ int main(int argc, char **argv) {
     for (auto &t : vp::split(f[2], '.')) id.st.push_back(atoi(t.c_str()));
     if (f.size() > 3 && !f[3].empty())
       for (auto &t : vp::split(f[3], '.')) id.st2.push_back(atoi(t.c_str()));
-    run_program(id, parts.size() > 1 ? parts[1] : "");
+    if (PROP == "C11") run_c11(id, parts.size() > 1 ? parts[1] : ""); else run_program(id, parts.size() > 1 ? parts[1] : "");
     vp::finish();
     return 0;
   }
@@ -502,7 +719,7 @@ int main(int argc, char **argv) {
   uint64_t caseno = 0;
   int nalpha = (int)ALPHA.size();
   int maxn = vp::args().opt.count("maxn") ? atoi(vp::args().opt["maxn"].c_str()) : 3;
-  for (int n = 1; n <= maxn; n++) enumerate(n, nalpha, caseno, "", n == 2 && tier == 0);
+  for (int n = 1; n <= maxn; n++) enumerate(n, nalpha, caseno, "", (n == 2 && tier == 0) || (PROP == "C11" && n <= 2 && vp::args().opt.count("second")));
 
   vp::stat("programs", n_programs);
   vp::stat("states", n_states + n_programs);
